@@ -9,4 +9,10 @@ fn main() {
         assert_eq!(got, ascii_digit || latin1, "byte {:#x}", b);
     }
     println!("is_numeric table ok (256/256)");
+    for b in 0..=255u8 {
+        let got = (b as char).is_whitespace();
+        let want = (9..=13).contains(&b) || b == 32 || b == 0x85 || b == 0xA0;
+        assert_eq!(got, want, "byte {:#x}", b);
+    }
+    println!("is_whitespace table ok (256/256)");
 }
